@@ -35,8 +35,8 @@ SHAPES_ORIG = [
     ("MC_shape_mgrlong_orig.cfg", "shape-mgrlong", _shape_cfg("shape-mgrlong", "mgr", 1, 1, False, 16000)),
 ]
 
-DESIGN = [("KeepAliveDesign", "MC_design_ska_std.cfg", 2), ("KeepAliveDesign", "MC_design_ska_long.cfg", 2),
-          ("KeepAliveDesign", "MC_design_mgr_std.cfg", 2), ("KeepAliveDesign", "MC_design_mgr_long.cfg", 2),
+DESIGN = [("KeepAliveDesign", "MC_design_ska_std.cfg", 2), ("KeepAliveDesign", "MC_design_mgr_std.cfg", 2),
+          ("KeepAliveDesign", "MC_design_ska_long.cfg", 1), ("KeepAliveDesign", "MC_design_mgr_long.cfg", 1),
           ("KeepAliveShape", "MC_shape_ska_fixed.cfg", 1), ("KeepAliveShape", "MC_shape_skalong_fixed.cfg", 1),
           ("KeepAliveShape", "MC_shape_mgr_fixed.cfg", 1), ("KeepAliveShape", "MC_shape_mgrlong_fixed.cfg", 1),
           ("KeepAliveShape", "MC_shape_mgrlife_fixed.cfg", 1)]
@@ -74,6 +74,42 @@ def _design_must_pass(work, module, cfgfile, workers):
     return dict(module=module, cfg=cfgfile, states=res["distinct"], transitions=res["generated"])
 
 
+def _replay_counterexamples(prop, fam, tier, seed, work, casefile, cases, shape_infos):
+    """Each counterexample of the design as found is executed on the real component on its own and judged by the monitor;
+    the evidence records whether the real code shows the clauses the model predicted at the end of the history (on the tree
+    as found it must; on a repaired tree it does not). Informative only: the verdict comes from the generic flow, which
+    runs the same chains again."""
+    from tablecheck import cfg_impl
+    from vcheck import build_harness, run_explorer, parse_violations, tlc_error
+    try:
+        binp = build_harness(fam["pkg"], work)
+        out = os.path.join(work, "cex")
+        run_explorer(binp, fam["test"], out, tier, seed, {"VERIF_REPLAY": casefile, "VERIF_PROP": prop}, timeout=600)
+        res = run_tlc(os.path.join(SPECS, SPEC_DIR), fam["impl_module"], cfg_impl(fam["watch"], fam.get("cfg_extra", "")), work,
+                      files={os.path.join(out, "bundle.json"): "bundle.json"}, workers=1, timeout=600, name="cex_impl")
+        if tlc_error(res):
+            raise Infra("TLC failed on the replayed design counterexamples:\n" + str(tlc_error(res)))
+        bundle = json.load(open(os.path.join(out, "bundle.json")))
+        length = {t["name"]: len(t["nodes"]) - 1 for t in bundle["systems"]}
+        seen = {}
+        for v in parse_violations(res["out"]):
+            if len(v["path"]) == length.get(v["system"], -1):      # the clauses of the history's last step
+                seen.setdefault(v["system"], set()).update(v["clauses"])
+        for p in (json.load(open(os.path.join(out, "stats.json"))).get("panics") or []):
+            seen.setdefault(p["system"], set()).add("Panic")
+        n = ok = 0
+        for info in shape_infos:
+            for i, cx in enumerate(info["counterexamples"]):
+                got = sorted(seen.get("%s#cex%d" % (info["replayed_as"], i), set()))
+                cx["real_code_clauses_at_last_step"] = got
+                cx["reproduced_on_real_code"] = got == sorted(cx["clauses"])
+                n += 1
+                ok += cx["reproduced_on_real_code"]
+        log("design counterexamples replayed on the real code: %d of %d show exactly the predicted clauses" % (ok, n))
+    except Infra as e:
+        log("note: replay of the design counterexamples failed (%s); the generic flow runs them again" % str(e)[:300])
+
+
 def runner(prop, fam, tier, seed, replay=None):
     t0 = time.time()
     pre = os.path.join(WORK, "%s-shape-%d" % (prop, os.getpid()))
@@ -87,7 +123,7 @@ def runner(prop, fam, tier, seed, replay=None):
         if not replay:
             from concurrent.futures import ThreadPoolExecutor
             try:
-                with ThreadPoolExecutor(max_workers=4) as ex:
+                with ThreadPoolExecutor(max_workers=6) as ex:
                     f0 = [(name, hcfg, cfgfile, ex.submit(_design_counterexamples, pre, cfgfile)) for (cfgfile, name, hcfg) in SHAPES_ORIG]
                     fs = [ex.submit(_design_must_pass, pre, m, c, w) for (m, c, w) in (DESIGN_THOROUGH if tier == "thorough" else DESIGN)]
                     orig = [(name, hcfg, cfgfile) + f.result() for (name, hcfg, cfgfile, f) in f0]
@@ -109,6 +145,7 @@ def runner(prop, fam, tier, seed, replay=None):
             env = dict(fam2.get("env", {}))
             env["VERIF_EXTRA_CASES"] = cf
             fam2["env"] = env
+            _replay_counterexamples(prop, fam2, tier, seed, pre, cf, cases, shape_infos)
         try:
             rc = table_check(prop, fam2, tier, seed, replay)
         except Exception:   # a crash of the driver is never a verdict
@@ -170,7 +207,9 @@ CHECKS = {
             "every explorer job (one table or one batch of chains) runs in its own process, bubbles of one process strictly one after the other",
         ],
         explanation="KeepAlive.tla (contract: what a user of the keep-alive may rely on, from the comments of keepalive.go) is model-checked against the guarantee "
-                    "stated over the whole history of the wire, both directions (KeepAliveDesign); KeepAliveShape models keepalive.go's critical sections "
+                    "stated over the whole history of the wire, both directions (KeepAliveDesign: a TLC state is one history the contract accepts; the "
+                    "invariant AgreeBothWays judges, in every such state, EVERY answer a component could give to EVERY next step - 5 steps x 120..480 core "
+                    "answers, manager: + 2 x 192..256 callback/statistics answers - by the contract and by the direct statement); KeepAliveShape models keepalive.go's critical sections "
                     "(as found: TLC finds the manager's callbacks that are never invoked, its re-sending while a reply is awaited when Timeout > Interval, "
                     "and the session keep-alive that is dead after Stop/Start and panics on the next Stop; with the proposed repairs: clean). KeepAliveImpl "
                     "walks the transition tables extracted from the real SessionKeepAlive x LCPStateMachine and KeepAliveManager (closed under their "
